@@ -422,9 +422,12 @@ def integer_typed_objects(tier, rng, rep):
                     build = lambda dt: mk(h.Point(x.astype(dt))) if cls in ("Segment", "HypPolygon") else h.Point(x.astype(dt))
                 q = h.Point(tl((), n).astype(float))
                 for qname, f in queries.items():
-                    for hist in ("construct", "copy", "reshape"):
+                    for hist in ("construct", "copy", "reshape", "stack"):
                         o = build(np.int64)
                         twin = build(float)
+                        if hist == "stack":          # a list of integer-typed objects stacked into one composite (derived data may be fractional)
+                            o = type(o)([o, build(np.int64)])
+                            twin = type(twin)([twin, build(float)])
                         if hist == "copy":
                             o = type(o)(o)
                         elif hist == "reshape" and o.shape != ():
